@@ -672,6 +672,8 @@ func (w *world) bagTags() string {
 	return b.String()
 }
 
+var stuckCommands int
+
 // step executes the bag's command #idx, then (unless it was a batch / quit) delivers its message to the real
 // Scheduler.Update.  elapsed: whether the worker pool sees its 4 s ramp-up delay as over.  Returns the
 // canonical description of the step (same text as lean/Driver/C05.lean `stepKind`).
@@ -693,15 +695,38 @@ func (w *world) step(idx int, elapsed bool) (kind string) {
 		kind = "tick"
 	} else {
 		n0 := runtime.NumGoroutine()
-		func() {
+		// watchdog: a command of the real scheduler that does not answer within 20 s (a merge waiting for a file that
+		// nobody will write, loadStore's retries piling up) ends the case as a failure instead of eating the whole
+		// harness time-out; after three of them no further command is executed in this run
+		if stuckCommands >= 3 {
+			w.ended = "panic"
+			w.panicMsg = "not run: three commands already did not return"
+			return "exec" + tag + "!panic"
+		}
+		done := make(chan struct{})
+		var res loop.Msg
+		var pan string
+		go func() {
+			defer close(done)
 			defer func() {
 				if r := recover(); r != nil {
-					w.ended = "panic"
-					w.panicMsg = "in command " + tag + ": " + fmt.Sprint(r)
+					pan = "in command " + tag + ": " + fmt.Sprint(r)
 				}
 			}()
-			msg = c()
+			res = c()
 		}()
+		select {
+		case <-done:
+			msg = res
+			if pan != "" {
+				w.ended = "panic"
+				w.panicMsg = pan
+			}
+		case <-time.After(20 * time.Second):
+			stuckCommands++
+			w.ended = "panic"
+			w.panicMsg = "command " + tag + " did not return within 20 s"
+		}
 		if tag == "G" {
 			// getPartialOrFullKV returns at the first successful load and leaves the other goroutine running; it
 			// may still write StoreModuleState afterwards: let it finish so that the run is reproducible
